@@ -314,6 +314,9 @@ func funcInfoOf(name string) funcInfo {
 //@ func (*converter).Copy
 //@   ensures[C03,C05] copy-routine-then-the-length-of-the-source-in-a-fresh-helper: appended(specBlock(c), old(specBlockBefore(c)), "call :_sch " + specName(len(c.funcs) > 0, c.funcCounter, destination, global) + " " + source, "call :_slg " + source, specSet(specName(len(c.funcs) > 0, c.funcCounter, specHelperName(old(c.varCounter)), false), "!_len!")) && result0 == specRef(specName(len(c.funcs) > 0, c.funcCounter, specHelperName(old(c.varCounter)), false)) && c.varCounter == old(c.varCounter) + 1
 //
+//@ func (*converter).Input
+//@   ensures[C05,C08] the-line-is-read-into-the-helper-that-is-handed-out: appended(specBlock(c), old(specBlockBefore(c)), "set /p \"" + specName(len(c.funcs) > 0, c.funcCounter, specHelperName(old(c.varCounter)), false) + "=" + prompt + "\"") && result0 == specRef(specName(len(c.funcs) > 0, c.funcCounter, specHelperName(old(c.varCounter)), false)) && c.varCounter == old(c.varCounter) + 1
+//
 //@ func (*converter).SliceEvaluation
 //@   ensures[C05] indirect-read-into-a-fresh-helper: appended(specBlock(c), old(specBlockBefore(c)), "for /f \"delims=\" %%i in (\"" + name + "_" + index + "\") do set \"" + specName(len(c.funcs) > 0, c.funcCounter, specHelperName(old(c.varCounter)), false) + "=!%%i!\"") && result0 == specRef(specName(len(c.funcs) > 0, c.funcCounter, specHelperName(old(c.varCounter)), false)) && c.varCounter == old(c.varCounter) + 1 && err == nil
 //
